@@ -38,48 +38,68 @@ func NewSwapWriteStore(s Store) *SwapWriteStore {
 
 // GetChunk reads and returns one (compressed!) chunk from the store
 func (s *SwapStore) GetChunk(id ChunkID) (*Chunk, error) {
+	verifChain(s, "sw.want.r", 0, 0, nil)
+	defer verifChain(s, "sw.runlocked", 0, 0, nil)
 	s.mu.RLock()
 	defer s.mu.RUnlock()
+	verifChain(s, "sw.rlocked", 0, 0, s.s)
 	return s.s.GetChunk(id)
 }
 
 // HasChunk returns true if the chunk is in the store
 func (s *SwapStore) HasChunk(id ChunkID) (bool, error) {
+	verifChain(s, "sw.want.r", 1, 0, nil)
+	defer verifChain(s, "sw.runlocked", 1, 0, nil)
 	s.mu.RLock()
 	defer s.mu.RUnlock()
+	verifChain(s, "sw.rlocked", 1, 0, s.s)
 	return s.s.HasChunk(id)
 }
 
 func (s *SwapStore) String() string {
+	verifChain(s, "sw.want.r", 2, 0, nil)
+	defer verifChain(s, "sw.runlocked", 2, 0, nil)
 	s.mu.RLock()
 	defer s.mu.RUnlock()
+	verifChain(s, "sw.rlocked", 2, 0, s.s)
 	return s.s.String()
 }
 
 // Close the store. NOP opertation, needed to implement Store interface.
 func (s *SwapStore) Close() error {
+	verifChain(s, "sw.want.r", 3, 0, nil)
+	defer verifChain(s, "sw.runlocked", 3, 0, nil)
 	s.mu.RLock()
 	defer s.mu.RUnlock()
+	verifChain(s, "sw.rlocked", 3, 0, s.s)
 	return s.s.Close()
 }
 
 // Close the store. NOP opertation, needed to implement Store interface.
 func (s *SwapStore) Swap(new Store) error {
+	verifChain(s, "sw.want.w", 0, 0, new)
+	defer verifChain(s, "sw.unlocked", 0, 0, nil)
 	s.mu.Lock()
 	defer s.mu.Unlock()
+	verifChain(s, "sw.locked", 0, 0, s.s)
 	_, oldWritable := s.s.(WriteStore)
 	_, newWritable := new.(WriteStore)
 	if oldWritable && !newWritable {
+		verifChain(s, "sw.refused", 0, 0, new)
 		return errors.New("a writable store can obly be updated with another writable one")
 	}
 	s.s.Close() // Close the old store
 	s.s = new
+	verifChain(s, "sw.installed", 0, 0, s.s)
 	return nil
 }
 
 // StoreChunk adds a new chunk to the store
 func (s *SwapWriteStore) StoreChunk(chunk *Chunk) error {
+	verifChain(s, "sw.want.r", 4, 0, nil)
+	defer verifChain(s, "sw.runlocked", 4, 0, nil)
 	s.mu.RLock()
 	defer s.mu.RUnlock()
+	verifChain(s, "sw.rlocked", 4, 0, s.s)
 	return s.s.(WriteStore).StoreChunk(chunk)
 }
